@@ -29,7 +29,8 @@ Record icase := mkICase {
   c_doc : doc;
   c_obs : iobs;          (* public path *)
   c_dec : decobs;        (* hook: VerifDecode of the same bytes *)
-  c_enc : option bytes;  (* hook: VerifEncode of [c_msg] (structured requests) *)
+  c_encsame : bool;      (* hook: VerifEncode of [c_msg] produced exactly the bytes [c_head]
+                            (compared by the harness; true for unstructured requests) *)
   c_hfmt : bytes;        (* hook: format field of VerifHandler's response *)
   c_hsame : bool         (* hook: VerifHandler's encoded response, uri, user, jobname and
                             data are those of the public path (compared by the harness) *)
@@ -135,8 +136,7 @@ Definition model_fmt (c : icase) : bytes :=
    must be what the package's own encoders produce for it *)
 Definition head_ok (c : icase) : bool :=
   negb (c_structured c) || beq (enc_msg (c_msg c)) (c_head c).
-Definition enc_ok (c : icase) : bool :=
-  match c_enc c with Some b => beq (enc_msg (c_msg c)) b | None => true end.
+Definition enc_ok (c : icase) : bool := c_encsame c.
 
 Definition mismatches (cs : list icase) : list N :=
   map c_id (filter (fun c => negb (head_ok c && enc_ok c
